@@ -219,6 +219,13 @@ class Check:
                 continue
             info["reported"] = reported + 1
             exp = self.expected(st, c, o)
+            model_only = (not st.spec_check) and ("malformed" in st.name or getattr(st, "model_only", False))
+            if model_only:
+                # outside the property's domain (malformed stream): the model no longer describes the code, which by
+                # itself is not a failing input of the property
+                self.violation({"theorem_or_stream": "correspondence: " + st.name, "input": st.go_case(c), "observed": o, "expected": exp,
+                                "why": "model and implementation disagree on an input outside the property's domain"}, "no-failing-input-found")
+                continue
             self.report_case(st, c, o, "implementation differs from %s" % ("specification" if st.spec_check else "model (proved equal to the specification)"), exp)
         info["wall_s"] = round(time.time() - t_start, 1)
         self.cov["streams"][st.name] = info
